@@ -46,4 +46,26 @@ public final class TextOv {
 		}
 		return new TupleValue(e);
 	}
+
+	@TLAPlusOperator(identifier = "Rep", module = "Chars", warn = false)
+	public static Value rep(final Value s, final Value n) {
+		final String str = ((StringValue) s).val.toString();
+		final int k = ((IntValue) n).val;
+		final StringBuilder sb = new StringBuilder();
+		for (int i = 0; i < k; i++) {
+			sb.append(str);
+		}
+		return new StringValue(sb.toString());
+	}
+
+	@TLAPlusOperator(identifier = "MsdStr", module = "Chars", warn = false)
+	public static Value msdStr(final Value a, final Value i, final Value j) {
+		final Value[] e = ((TupleValue) a.toTuple()).elems;
+		final int lo = ((IntValue) i).val, hi = ((IntValue) j).val;
+		final StringBuilder sb = new StringBuilder();
+		for (int k = lo; k <= hi; k++) {
+			sb.append((char) ('0' + ((IntValue) e[e.length - k]).val));
+		}
+		return new StringValue(sb.toString());
+	}
 }
